@@ -113,8 +113,8 @@ func unhx(s string) string {
 // ---- report ----------------------------------------------------------------------------------
 
 type Violation struct {
-	Key    string         `json:"key"`  // signature used to match known findings
-	What   string         `json:"what"` // one line
+	Key    string         `json:"key"`    // signature used to match known findings
+	What   string         `json:"what"`   // one line
 	Broken string         `json:"broken"` // theorem / correspondence that no longer checks
 	Replay map[string]any `json:"replay"`
 }
